@@ -26,7 +26,7 @@ type c08case struct {
 	Off      uint32 `json:"off"`      // FS interfaces hidden (subset of the helper's relevant ones)
 	FileOff  uint32 `json:"file_off"` // file interfaces hidden on handles
 	ArgIndex int    `json:"arg"`
-	State    int    `json:"state,omitempty"` // 0: the fixed start tree; >0: a seeded random start tree (thorough)
+	State    int    `json:"state,omitempty"`   // 0: the fixed start tree; >0: a seeded random start tree (thorough)
 	Variant  int    `json:"variant,omitempty"` // argument variant (Chmod: which mode)
 }
 
@@ -302,7 +302,9 @@ func c08run(env *core.Env, idx int) core.CaseResult {
 		target = c08targets[cs.ArgIndex]
 	}
 	wit := map[string]any{"case": cs, "hidden": hidden, "target": target}
-	sig := func(what string) string { return fmt.Sprintf("C08|%s|%s|hidden=%s|%s", cs.Base, cs.Helper, hidden, what) }
+	sig := func(what string) string {
+		return fmt.Sprintf("C08|%s|%s|hidden=%s|%s", cs.Base, cs.Helper, hidden, what)
+	}
 
 	fullBase := cs.Base
 	if cs.Base == "mount-os" {
